@@ -454,3 +454,15 @@ func (s *Server) XABranches() map[string]string {
 	}
 	return out
 }
+
+// ConnIDs returns the ids of the connections the server currently knows.
+func (s *Server) ConnIDs() []int {
+	s.mu.Lock()
+	defer s.mu.Unlock()
+	var out []int
+	for id := range s.conns {
+		out = append(out, id)
+	}
+	sort.Ints(out)
+	return out
+}
